@@ -106,7 +106,7 @@ Lemma upsert1_effect st ins id p pd st' pd' :
   upsert1 st ins id p pd = Ok (st', pd') ->
   st_sch st' = st_sch st /\ exists r, st_docs st' = put_version (st_docs st) id (VPut p r).
 Proof.
-  unfold upsert1. destruct (gen_row _ (s_fields (st_sch st)) p) as [r| |]; simpl; try discriminate.
+  unfold upsert1. destruct (gen_row (s_fields (st_sch st)) p) as [r| |]; simpl; try discriminate.
   destruct (ins && _); try discriminate.
   destruct (uniq_checks st ins id r pd); try discriminate.
   intros H; inversion H; subst; simpl. split; auto. eauto.
